@@ -234,7 +234,7 @@ def run_once(r):
     text = p.stdout.decode("utf-8", "replace")
     r.log("exit=%d stdout:\n%s" % (p.returncode, ANSI.sub("", text)[-1500:]))
     if p.returncode != 0:
-        err = p.stderr.decode("utf-8", "replace").strip()
+        err = simlib.norm_err(p.stderr.decode("utf-8", "replace")).strip()
         if "couldn't run query" in err or "panic" in err:
             r.violate("C05", "run_error", attrs, "query failed on valid input: %s" % err[-300:])
         else:
